@@ -55,7 +55,8 @@ CFG["manifest"] = dict(
          "compiled model (random scripts x inputs x partitioners x configurations, concurrent senders, every close order; `multi` cases: 2-4 async/sync mocks built "
          "from one Config and configured from shared map objects that the test afterwards mutates, replaces or hands to another mock, single mocks "
          "re-configured, interleaved with sends - the oracle checks that the partitioner is called with the count that mock was given; "
-         "Consumer.HighWaterMarks answers are scribbled over and asked again) and by the property "
+         "Consumer.HighWaterMarks answers are scribbled over and asked again; oracle-only `cyield` family: 2-8 goroutines yield concurrently on one "
+         "partition consumer with a small channel buffer while a reader checks consecutive offsets, per-yielder order and the high-water mark) and by the property "
          "oracle. Trusted: Lean kernel; translator tools/extract + GoSem.lean; harness/line protocol. Modelled not verified: sarama's own "
          "partitioners (C17 model reused), FNV-1a re-implemented in the driver. Observed only: HighWaterMarkOffset also advances for a "
          "YieldMessage that panics on a closed partition consumer; message offsets always start at 1 whatever start offset was registered.",
